@@ -22,6 +22,11 @@ def c11(work, tier, seed):
                         steps = fs.session(token)[:4] + [{"k": "data", "cls": "valid", "n": 10}]
                         scripts.append({"id": "d%05d" % len(scripts), "origin": "%s/%s/%s" % (point, cause, fl), "cfg": fs.base_cfg(token), "transport": tr,
                                         "tun": dict(fs.H_A, user="user1" if token else "nuser1"), "steps": steps, "point": point, "cause": cause, "inflight": fl})
+    # legacy: the IN request was accepted but the client has not sent its first bytes yet
+    for cause in ("fin:in", "rst:in", "fin:out", "rst:out"):
+        for token in ((True, False) if tier == "thorough" else (len(scripts) % 2 == 0,)):
+            scripts.append({"id": "d%05d" % len(scripts), "origin": "pre/%s" % cause, "cfg": fs.base_cfg(token), "transport": "legacy",
+                            "tun": dict(fs.H_A, user="user1" if token else "nuser1"), "steps": fs.session(token)[:4], "point": "pre", "cause": cause, "inflight": "none"})
     design = {"distinct": d1["distinct"] + d2["distinct"], "generated": d1["generated"] + d2["generated"]}
     out, rep, res = fa.generic("C11", work, tier, seed, "teardown", "TeardownTrace", scripts, design,
                                lambda v: "%s/%s/%s" % (v["guard"], v["a"], v["b"]),
